@@ -1,7 +1,7 @@
 /-
 C10 model (core Lean only, executable): the criteria algebra that package `query` builds on top of the
-cypher model, the emitter of cypher/models/cypher/format/format.go transcribed AS IT IS (`emit`), the
-minimally repaired emitter (`emitFixed`), and a fuel-driven precedence-climbing parser for the token
+cypher model, the emitter of cypher/models/cypher/format/format.go transcribed AS IT IS (`emit`), its
+state before the three C10 fixes (`emitOld`), and a fuel-driven precedence-climbing parser for the token
 language those emitters produce, following the tower of Cypher.g4
   oC_OrExpression < oC_XorExpression < oC_AndExpression < oC_NotExpression < oC_ComparisonExpression < atom
 and building the same nodes as cypher/frontend (Parenthetical for every `( … )`, one Negation for a run of
@@ -62,7 +62,16 @@ inductive Tok where
   | str (s : String)
   | ident (s : String)
   | param (s : String)
+  -- clause level (Model/C10Q.lean)
+  | kwMatch | kwWhere | kwReturn | kwDistinct | kwOrderBy | kwAsc | kwDesc | kwSkip | kwLimit
+  | kwSet | kwRemove | kwDelete | kwDetachDelete | kwCreate
+  | relOpen | relClose | pipe
 deriving DecidableEq, Repr, Inhabited
+
+/-- a token that ends a WHERE expression at clause level -/
+def Tok.endsExpr : Tok → Bool
+  | .kwReturn | .kwSet | .kwRemove | .kwDelete | .kwDetachDelete | .kwCreate => true
+  | _ => false
 
 /-- operands of comparisons: references, id()/toLower()/size()/labels()/type() calls, parameters, literals, list literals -/
 inductive Operand where
@@ -171,10 +180,10 @@ def emitETail (fx : Fix) (op : Op) : List Expr → List Tok
   | e :: es => .kw op :: (wrapIf (fx.parens && decide (e.lvl < op.lvl)) (emitE fx e) ++ emitETail fx op es)
 end
 
-/-- format.go as it is -/
-def emit (e : Expr) : List Tok := emitE Fix.none e
-/-- the minimally repaired emitter (hooks/C10-fix.patch) -/
-def emitFixed (e : Expr) : List Tok := emitE Fix.all e
+/-- format.go as it is (since /repo commits 4086218 parentheses, 04efdd9 float fraction, 7bfe5dc all-of kinds) -/
+def emit (e : Expr) : List Tok := emitE Fix.all e
+/-- format.go before those three commits -/
+def emitOld (e : Expr) : List Tok := emitE Fix.none e
 
 /-! ### parser -/
 
